@@ -124,7 +124,9 @@ class Sim:
                 elif e.state not in (S.REKEYED,):
                     pass
             view[w] = est
-            leftovers = [e.state.name for e in ctl.ike_sas if e.state not in (S.ESTABLISHED,)]
+            # a responder IKE_SA that answered (a copy of) an IKE_SA_INIT request and never saw IKE_AUTH waits for a REQUEST, not for a response: the
+            # controller opens one per copy of the request and keeps it (observations O4/O5 of DESIGN.md) - not a clause of this property
+            leftovers = [e.state.name for e in ctl.ike_sas if e.state not in (S.ESTABLISHED,) and not (e.state == S.INIT_RES_SENT and not e.is_initiator)]
             if leftovers and not b:
                 bad.append(f'{w} still lists IKE_SAs that are neither established nor waiting: {leftovers}')
             bad += [f'{w}: {x}' for x in world.sad_invariant(ctl, self.n.ep(w).kernel)]
